@@ -14,6 +14,7 @@ import (
 	"verif/dsim"
 	"verif/hd"
 	"verif/ref"
+	"verif/world"
 )
 
 // C10 — per-channel event stream: open first, close last, frames lossless and in order.
@@ -126,6 +127,7 @@ type streamOpts struct {
 	nodeClosedAt  time.Duration // 0 = not closed before the check
 	consumerAlive bool
 	lossless      bool
+	lossyDatagrams bool // datagram links lose, duplicate, reorder and corrupt: soundness only
 }
 
 func (e *env) checkEventStream(events []obs, opt streamOpts) {
@@ -217,6 +219,29 @@ func (e *env) checkEventStream(events []obs, opt streamOpts) {
 			}
 		}
 		s.frames = tagged
+		if opt.lossyDatagrams && l.datagram {
+			// soundness under loss / duplication / reordering / corruption: whatever surfaces as a
+			// frame event is a frame this peer really sent, bit for bit
+			for k, o := range s.frames {
+				if _, raw := o.fr.GetMessage().(*message.MessageRaw); raw && e.cfg.inKey == nil {
+					// without a key, a frame whose (possibly damaged) id is outside the dialect cannot be
+					// validated by anybody and is passed on undecoded: that is not a decoded message
+					continue
+				}
+				wr, idx, ok := frameTag(o, l.v2)
+				var it *sentItem
+				for i := range want {
+					if ok && want[i].index == idx {
+						it = &want[i]
+					}
+				}
+				if !ok || it == nil || wr != byte(100+l.id) || o.sys != l.sys || o.comp != l.comp || o.fr.GetSequenceNumber() != it.f.Seq {
+					dsim.Failf("datagram-sound", "%s: frame event %d (tag %d index %d sys %d seq %d) is not a frame the peer %s sent: damaged input was delivered", name, k, wr, idx, o.sys, o.fr.GetSequenceNumber(), l.name)
+					return
+				}
+			}
+			continue
+		}
 		for k, o := range s.frames {
 			wr, idx, ok := frameTag(o, l.v2)
 			if !ok {
@@ -487,9 +512,21 @@ func c10Body() func(h []dsim.Rec) {
 	e.w.ChunkMode = dsim.Choose(3)
 	e.w.SendBuf = dsim.Pick(1<<16, 4096, 300)
 	neps := 1 + dsim.Choose(3)
-	kinds := []int{epCustom, epTCPServer, epTCPClient, epUDPServer, epSerial}
+	kinds := []int{epCustom, epTCPServer, epTCPClient, epUDPServer, epSerial, epUDPClient, epBroadcast}
 	for i := 0; i < neps; i++ {
 		e.addEndpoint(kinds[dsim.Choose(len(kinds))])
+	}
+	// a lossy datagram network (loss, duplication, reordering, corruption) in some runs: only
+	// soundness is demanded of datagram channels then
+	lossy := false
+	for _, ep := range e.cfg.eps {
+		if (ep.kind == epUDPServer || ep.kind == epUDPClient || ep.kind == epBroadcast) && dsim.Choose(3) == 2 {
+			lossy = true
+		}
+	}
+	if lossy {
+		e.w.UDP = world.UDPFaults{LossPm: dsim.Choose(200), DupPm: dsim.Choose(200), DelayPm: dsim.Choose(300), MaxDelay: 2 * time.Second, CorruptPm: dsim.Choose(300)}
+		count("cov:lossy-datagram-network")
 	}
 	// serial peers must be attached before Initialize opens the device
 	d := &driverSet{e: e}
@@ -587,8 +624,8 @@ func c10Body() func(h []dsim.Rec) {
 	return func(h []dsim.Rec) {
 		// events observed up to the quiescent instant are judged for completeness; the full log
 		// (including what arrived during Close) for ordering
-		e.checkEventStream(snapshot, streamOpts{nodeClosedAt: closedAt, consumerAlive: alive, lossless: true})
-		e.checkEventStream(cons.events, streamOpts{nodeClosedAt: 1, consumerAlive: false, lossless: true})
+		e.checkEventStream(snapshot, streamOpts{nodeClosedAt: closedAt, consumerAlive: alive, lossless: true, lossyDatagrams: lossy})
+		e.checkEventStream(cons.events, streamOpts{nodeClosedAt: 1, consumerAlive: false, lossless: true, lossyDatagrams: lossy})
 	}
 }
 
